@@ -9,6 +9,8 @@
 #   tools/lane.sh run <n> <id> <tier> [seed]      run one check in the lane as it is
 #   tools/lane.sh destroy <n>
 #
+# NEVER edit this file in place while an instance is running (bash reads scripts incrementally; an in-place
+# edit once made a running instance execute the `destroy` branch): write a new file and `mv` it over this one.
 # The lane copy is produced by textual substitution of the two absolute roots; nothing else differs.
 set -u
 cmd="${1:?}"; n="${2:?lane number}"; shift 2
@@ -31,7 +33,7 @@ fix_prebuilt() {
     git -C $L/repo update-index --refresh >/dev/null 2>&1
 }
 restore_repo() {
-    cd $L/repo
+    cd $L/repo || { echo "lane $n has no repo" >&2; exit 2; }
     [ -f $L/applied.diff ] && git apply -R $L/applied.diff 2>/dev/null
     rm -f $L/applied.diff
     fix_prebuilt
@@ -56,10 +58,10 @@ case "$cmd" in
   sens)
     patch="$1"; seed="$2"; shift 2
     restore_repo
-    cd $L/repo
+    cd $L/repo || exit 2
     git apply "$patch" || { echo "patch does not apply" >&2; exit 2; }
     cp "$patch" $L/applied.diff
-    cd $L/verif
+    cd $L/verif || exit 2
     for c in "$@"; do
       s=$(date +%s)
       VERIF_SEED=$seed ./run.sh "$c" quick > $L/sens_$c.out 2> $L/sens_$c.err
